@@ -41,7 +41,7 @@ def gen_value(rng, ty, odd=0.04):
         return {"t": rng.choice(TEXTS)}
     if f == "float":
         return rng.choice([{"r": "0.0"}, {"r": "-1.5"}, {"r": "3.25"}, {"r": "10000000000.0"}, {"r": "0.1"}, {"i": 5},
-                           {"r": "12.34"}])
+                           {"r": "12.34"}, {"r": "3.7"}, {"r": "1e+19"}, {"r": "-2.5"}])
     if f == "blob":
         return {"b": rng.choice(["", "6162", "27", "c3a9", "00"])}
     if ty == "DATE":
@@ -426,6 +426,29 @@ def gen_partial_reordering(rng, t, ops):
             tup[rng.randrange(len(tup))] = "nope"
         out.append(tup)
     return out
+
+
+def numeric_retype_battery():
+    """fixed table + retypes: numeric / text columns holding fractional, out-of-range and non-numeric values are changed to
+    INTEGER / BIGINT / SMALLINT (and back to FLOAT / NUMERIC): the stored value must be SQLite's CAST, storage class included"""
+    def col(n, ty, pk=False):
+        return {"name": n, "ty": ty, "aff": aff_of_token(ty), "nullable": not pk, "default": None, "dval": None, "pk": pk}
+
+    vals_f = [{"r": "3.7"}, {"r": "-2.5"}, {"r": "1e+19"}, {"r": "-1e+19"}, {"i": 5}, {"r": "0.0"}, None, {"r": "12.0"}]
+    vals_s = [{"t": "abc"}, {"t": "12abc"}, {"t": "3.9"}, {"t": " 7 "}, {"t": "-0.5"}, {"t": "9223372036854775808"}, None, {"t": ""}]
+    t = {"name": "t", "cols": [col("id", "INTEGER", True), col("f", "FLOAT"), col("n", "NUMERIC(10, 2)"), col("s", "VARCHAR(20)"), col("i", "INTEGER")],
+         "pk": {"name": None, "cols": ["id"]}, "uniques": [], "checks": [], "fks": [], "indexes": [], "stypes": {},
+         "rows": [[{"i": k + 1}, vals_f[k], vals_f[(k + 3) % 8], vals_s[k], {"i": [3, -7, 2 ** 40, 0, 1, 5, 6, 7][k]}] for k in range(8)]}
+
+    def alter(c, ty):
+        return {"op": "alter_column", "name": c, "new_name": None, "type": {"ty": ty, "aff": aff_of_token(ty)}, "nullable": None, "default": None}
+
+    seqs = [[alter("f", "INTEGER"), alter("n", "BIGINT"), alter("s", "SMALLINT")],
+            [alter("f", "SMALLINT"), alter("n", "INTEGER"), alter("s", "BIGINT")],
+            [alter("i", "FLOAT"), alter("s", "NUMERIC(10, 2)"), alter("f", "NUMERIC(10, 2)")],
+            [alter("f", "VARCHAR(20)"), alter("f", "INTEGER")],
+            [alter("n", "INTEGER"), alter("n", "FLOAT")]]
+    return t, seqs
 
 
 def ordering_battery(t):
